@@ -54,7 +54,7 @@ def max_ph(t):
 
 def gen(rng, tier, focus):
     lines, stmts = [], []
-    nds = 5 if tier == "quick" else 30
+    nds = 5 if tier == "quick" else 200
     nq = 40 if tier == "quick" else 120
     for i in range(nds):
         ds = dp.small_dataset(rng, "q%d" % i, hostile=True)
